@@ -228,8 +228,9 @@ Inductive keykind :=
 | KFull        (* media type + digest + size: memory store, fallback of the file store *)
 | KDigest      (* digest only: OCI layout *)
 | KNamespace   (* digest within the manifest / blob namespace: a registry repository *)
-| KFile.       (* file store: named files are found by digest; unnamed content lives in a fallback
-                  memory store keyed by media type + digest + size *)
+| KFile.       (* file store (file.New defaults): a descriptor with a title annotation is a named file,
+                  found by digest once its name is taken, refused when the name is taken at Push;
+                  unnamed content lives in a fallback memory store keyed by media type + digest + size *)
 
 Record tcfg := mkTcfg {
   t_exists : bool;     (* the pusher also implements content.ReadOnlyStorage *)
@@ -246,7 +247,8 @@ Definition manifest_media_types : list str :=
 
 Definition is_manifest_mt (mt : str) : bool := existsb (str_eqb mt) manifest_media_types.
 
-Record entry := mkEntry { e_mt : str; e_dg : str; e_sz : Z; e_bytes : str; e_named : bool }.
+(* [e_name]: the file name under which a file store holds the content ([] = unnamed / other targets) *)
+Record entry := mkEntry { e_mt : str; e_dg : str; e_sz : Z; e_bytes : str; e_name : str }.
 
 Inductive role := RBlob | RManifest.
 Inductive event :=
@@ -262,25 +264,43 @@ Record state := mkState {
 Definition full_key (d : desc) (e : entry) : bool :=
   str_eqb (d_mt d) (e_mt e) && (d_sz d =? e_sz e)%Z.
 
-(* Exists: does entry e answer for descriptor d (descriptors without a title annotation) *)
+(* content/file: a descriptor with the title annotation is a named file *)
+Definition AnnotationTitle : str := b "org.opencontainers.image.title".
+Definition title (d : desc) : str :=
+  match ann_get AnnotationTitle (d_ann d) with Some n => n | None => [] end.
+Definition is_named (e : entry) : bool := negb (is_nil (e_name e)).
+Definition name_exists (st : list entry) (n : str) : bool := existsb (fun e => str_eqb (e_name e) n) st.
+Definition entry_name (k : keykind) (d : desc) : str := match k with KFile => title d | _ => [] end.
+
+(* does entry e hold the content descriptor d asks for *)
 Definition same_key (k : keykind) (d : desc) (e : entry) : bool :=
   str_eqb (d_dg d) (e_dg e) &&
   match k with
   | KDigest => true
   | KFull => full_key d e
   | KNamespace => Bool.eqb (is_manifest_mt (d_mt d)) (is_manifest_mt (e_mt e))
-  | KFile => if e_named e then true else full_key d e
+  | KFile => if is_named e then true else full_key d e
   end.
 
-(* Push: does entry e make the push of d answer ErrAlreadyExists *)
+(* file.Store.Exists / Fetch: a titled descriptor is looked up only when its name is taken *)
+Definition name_ok (k : keykind) (st : list entry) (d : desc) : bool :=
+  match k with KFile => is_nil (title d) || name_exists st (title d) | _ => true end.
+
+(* Exists *)
+Definition stored (k : keykind) (st : list entry) (d : desc) : bool :=
+  name_ok k st d && existsb (same_key k d) st.
+
+(* Push answers ErrAlreadyExists (file store: only its unnamed fallback does) *)
 Definition push_key (k : keykind) (d : desc) (e : entry) : bool :=
   match k with
-  | KFile => negb (e_named e) && same_key k d e
+  | KFile => negb (is_named e) && same_key k d e
   | _ => same_key k d e
   end.
-
-Definition stored (k : keykind) (st : list entry) (d : desc) : bool := existsb (same_key k d) st.
 Definition push_dup (k : keykind) (st : list entry) (d : desc) : bool := existsb (push_key k d) st.
+
+(* Push fails for good: file.ErrDuplicateName, the name of a titled descriptor is taken *)
+Definition push_refused (k : keykind) (st : list entry) (d : desc) : bool :=
+  match k with KFile => negb (is_nil (title d)) && name_exists st (title d) | _ => false end.
 
 Definition faulty (fa : option nat) (s : state) : bool :=
   match fa with Some k => Nat.eqb k (s_ops s) | None => false end.
@@ -294,13 +314,17 @@ Definition do_exists (tc : tcfg) (fa : option nat) (s : state) (d : desc) : stat
   if faulty fa s then (s', None)
   else (s', Some (stored (t_key tc) (s_store s) d)).
 
-(* Push: false = injected error; ErrAlreadyExists is success for every caller in pack.go *)
+(* Push: false = the storage operation failed (injected fault, or the target refused: duplicate
+   name); ErrAlreadyExists is success for every caller in pack.go.  A titled descriptor goes to a
+   file store as a named file without consulting the fallback. *)
 Definition do_push (tc : tcfg) (fa : option nat) (s : state) (r : role) (d : desc) (bytes : str)
   : state * bool :=
   let s' := tick s (EvPush r d bytes) in
+  let k := t_key tc in
   if faulty fa s then (s', false)
-  else if push_dup (t_key tc) (s_store s) d then (s', true)
-  else (mkState (s_store s ++ [mkEntry (d_mt d) (d_dg d) (d_sz d) bytes false]) (s_ops s') (s_events s'), true).
+  else if push_refused k (s_store s) d then (s', false)
+  else if is_nil (entry_name k d) && push_dup k (s_store s) d then (s', true)
+  else (mkState (s_store s ++ [mkEntry (d_mt d) (d_dg d) (d_sz d) bytes (entry_name k d)]) (s_ops s') (s_events s'), true).
 
 (* pushIfNotExist *)
 Definition push_if_not_exist (tc : tcfg) (fa : option nat) (s : state) (d : desc) (bytes : str)
